@@ -539,6 +539,11 @@ def run_case(case):
                 # reported, but the damaged file must not stay under its name
                 V.append(("unrecoverable-file-left-under-its-name", "%s: %r reported unrecoverable yet present with wrong bytes" % (label, f.sub), rep))
                 continue
+            if b"Stopping at block" in rf.err and rf.rc != 0:
+                # fix gave up with a fatal message in the middle of the array (e.g. a recorded file's path is now a directory
+                # and cannot be opened): the run is announced as incomplete, files it had begun are not "left as if correct"
+                res["counters"]["files_left_by_a_fix_that_stopped_with_a_fatal_error"] = res["counters"].get("files_left_by_a_fix_that_stopped_with_a_fatal_error", 0) + 1
+                continue
             key = "wrong-bytes-written-without-report/" + diagnose(a, fs, c, f, got, want, inputs_dmg(dn))
             V.append((key, "%s: %s:%r written by fix with bytes that are not the recorded version and not reported (rc=%s, unrecoverable=%d)" %
                       (label, dn.decode(), f.sub, rf.rc, nun), rep))
